@@ -11,6 +11,7 @@ import (
 	"github.com/openziti/storage/boltz"
 	"go.etcd.io/bbolt"
 	"verif/harness/internal/core"
+	"verif/harness/internal/memsym"
 	"verif/harness/internal/qx"
 	"verif/harness/internal/schema"
 )
@@ -177,6 +178,7 @@ func runC01(c *core.Ctx, idx int) {
 	g := &qx.Gen{R: r, W: env.w, Store: qx.Things}
 	all := env.w.Ids(qx.Things)
 	nFilters := 60
+	mem := newMemWorld(env.w)
 	_ = env.db.View(func(tx *bbolt.Tx) error {
 		for k := 0; k < nFilters; k++ {
 			depth := 0
@@ -228,6 +230,21 @@ func runC01(c *core.Ctx, idx int) {
 						err = fmt.Errorf("%w (text %q)", err, respelled)
 					}
 					return ids, err
+				})
+			}
+			// package ast alone: the same text evaluated row by row over an in-memory Symbols implementation
+			if mq, merr := ast.Parse(mem.tables[qx.Things], text); merr == nil || judged {
+				run("ast.EvalBool over memsym", func() ([]string, error) {
+					if merr != nil {
+						return nil, merr
+					}
+					var ids []string
+					for _, id := range all {
+						if mq.EvalBool(mem.row(qx.Things, id, 3)) {
+							ids = append(ids, id)
+						}
+					}
+					return ids, nil
 				})
 			}
 			parsed, perr := ast.Parse(st.Store, text)
@@ -292,4 +309,70 @@ func runC01(c *core.Ctx, idx int) {
 		}
 		return nil
 	})
+}
+
+// memWorld builds memsym tables / rows from a qx world (used to drive package ast without boltz).
+type memWorld struct {
+	w      *qx.World
+	tables map[string]*memsym.Table
+}
+
+var qxNodeTypes = map[qx.Type]ast.NodeType{qx.TStr: ast.NodeTypeString, qx.TInt: ast.NodeTypeInt64, qx.TFloat: ast.NodeTypeFloat64, qx.TBool: ast.NodeTypeBool, qx.TTime: ast.NodeTypeDatetime, qx.TAny: ast.NodeTypeAnyType}
+
+func newMemWorld(w *qx.World) *memWorld {
+	m := &memWorld{w: w, tables: map[string]*memsym.Table{}}
+	for _, store := range []string{qx.Things, qx.Owners, qx.Others} {
+		m.tables[store] = memsym.NewTable()
+	}
+	for _, store := range []string{qx.Things, qx.Owners, qx.Others} {
+		t := m.tables[store]
+		scalars, sets := qx.Paths(store)
+		for p, typ := range scalars {
+			t.Types[p] = qxNodeTypes[typ]
+		}
+		for p, typ := range sets {
+			t.Types[p] = qxNodeTypes[typ]
+			t.Sets[p] = true
+		}
+		for _, set := range qx.SubSets(store) {
+			t.Linked[set] = m.tables[qx.TargetOf(store, set)]
+		}
+	}
+	return m
+}
+
+func (m *memWorld) row(store, id string, depth int) *memsym.Row {
+	src := m.w.Rows[store][id]
+	t := m.tables[store]
+	r := memsym.NewRow(t)
+	if src == nil {
+		return r
+	}
+	for p := range t.Types {
+		vals, isSet, ok := m.w.ResolveAny(store, src, p)
+		if !ok {
+			continue
+		}
+		if isSet {
+			r.SetVals[p] = vals
+		} else if len(vals) > 0 {
+			r.Vals[p] = vals[0]
+		}
+	}
+	if depth > 0 {
+		for _, set := range qx.SubSets(store) {
+			ids, _ := src.V[set].([]string)
+			seen := map[string]bool{}
+			sorted := append([]string{}, ids...)
+			sort.Strings(sorted)
+			for _, lid := range sorted {
+				if seen[lid] || m.w.Rows[qx.TargetOf(store, set)][lid] == nil {
+					continue
+				}
+				seen[lid] = true
+				r.LinkedRows[set] = append(r.LinkedRows[set], m.row(qx.TargetOf(store, set), lid, depth-1))
+			}
+		}
+	}
+	return r
 }
